@@ -15,6 +15,7 @@ import Pcore.Proofs.FilesTypesetChild
 import Pcore.Proofs.FilesFuelMono
 import Pcore.Proofs.FilesTypesetDep
 import Pcore.Proofs.FilesAncestorMod
+import Pcore.Proofs.FilesInitDep
 /-!
 # C15 — File-based loading maps names to definition files faithfully
 
@@ -92,8 +93,10 @@ Full statement / proved / missing
 * `C15_ancestor_loaded_module`, `C15_ancestor_error_module` (proved) — `Mod::A::B` requested where only `Mod::A` has a file,
   through the module's loader below the global loader: `Mod::A` is loaded on the way, `Mod::A::B` stays absent; a defective
   `Mod::A` file is the error of the lookup of `Mod::A::B`.
-* missing: the module's own (unqualified) name through the dependency loader (the loop over all members), several existing
-  ancestors at once, ancestors through the dependency loader; it is false as
+* `C15_init_typeset_dependency` (proved) — a module's own unqualified name through the dependency loader, for any list of
+  distinct ordinary modules: the loop over all members, `init_typeset.pp` the only read, exact state.
+* missing: several existing ancestors at once, ancestors through the dependency loader, a module called `environment`
+  among the members of that loop; it is false as
   stated for layouts that define one name twice (`C15_duplicate_redefine`, known finding C15-duplicate-redefine) and the
   error of a misnamed file carries no line (`C15_misnamed_no_line`, known finding C15-misnamed-no-line).  The OS (Walk
   order, permissions, symlinks), the parser and type resolution are parameters (DESIGN.md §5).
@@ -1238,6 +1241,58 @@ example : QuietAnc ancCfg .g {} ["Mymod", "A", "B"] ∧ QuietAnc ancCfg (.m "mym
     (loadS 20 ancCfg {} ["Mymod", "C"]).1 = .notfound ∧ (loadS 20 ancCfg {} ["Mymod", "C"]).2.reads = [] := by
   refine ⟨quietAnc_of_check (by decide), quietAnc_of_check (by decide), Or.inl ⟨rfl, Or.inr ⟨_, rfl, rfl⟩⟩,
     Or.inl ⟨rfl, Or.inr ⟨_, rfl, rfl⟩⟩, by decide, by decide, by decide, by decide, by decide⟩
+
+/-! ## a module's own name through the dependency loader: `init_typeset.pp` -/
+
+/-- the lookup `Mod` (unqualified) through the DEPENDENCY loader in the default topology, for any list of distinct,
+    ordinary modules: the name is not routed but offered to every module loader in turn — each asks the global loader
+    first (a complete miss and a placeholder the first time, the placeholder afterwards); a module of another name refuses
+    it (a placeholder); the module of that name reads `init_typeset.pp` — the only read — and resolves the type set into
+    the dependency loader (three placeholders and a definition per member), answering its own placeholder, so the loop
+    goes on over the remaining modules and ends with the entry the dependency loader holds by then: found, with the exact
+    state `skipMods after (typesetState3 … (skipMods before …))` -/
+theorem C15_init_typeset_dependency (cfg : Cfg) (mod a : String) (hv : cfg.via = .d) (hflat : cfg.flat = false)
+    (hguard : cfg.guardInit = true) (before after : List String) (hmodsEq : cfg.mods = before ++ mod :: after)
+    (hnd : cfg.mods.Nodup) (hoth : ∀ m ∈ before ++ after, isGlobalMod m = false) (hmg : isGlobalMod mod = false)
+    (hparts : partsOf [a] = some [mod]) (hsys : sysLoad [a] = none)
+    (nm : Name) (ts : List String) (o : Path) (os : List Path) (s : St) (k : Nat)
+    (hk : 3 * (nm.length + 1) + ts.length ≤ k)
+    (hi : idx cfg (.m mod) ["init_typeset"] = o :: os)
+    (hb : bodyAt cfg.tree o = some (.typ .typeset nm ts)) (hkey : keyOf nm = [mod])
+    (hd : s.get .d [mod] = none) (hgs : s.get .g [mod] = none) (hig : idx cfg .g [mod] = [])
+    (hfm : ∀ m ∈ cfg.mods, s.get (.m m) [mod] = none)
+    (hhg : MemHyp cfg .g nm (((skipMods [mod] before (s.put .g [mod] none)).put (.m mod) [mod] none).addRead o) ts)
+    (hhm : MemHyp cfg (.m mod) nm (((skipMods [mod] before (s.put .g [mod] none)).put (.m mod) [mod] none).addRead o) ts)
+    (hfreshg : ∀ t ∈ ts, s.get .g (keyOf (nm ++ [t])) = none)
+    (hfreshm : ∀ t ∈ ts, s.get (.m mod) (keyOf (nm ++ [t])) = none)
+    (hfreshd : ∀ t ∈ ts, s.get .d (keyOf (nm ++ [t])) = none) :
+    loadS (k + cfg.mods.length + 16) cfg s [a] =
+      (.found ⟨.typeset, nm⟩,
+        skipMods [mod] after (typesetState3 mod [a] nm ts o (skipMods [mod] before (s.put .g [mod] none)))) ∧
+    (skipMods [mod] after (typesetState3 mod [a] nm ts o (skipMods [mod] before (s.put .g [mod] none)))).reads =
+      s.reads ++ [o] :=
+  ⟨init_typeset_dep cfg mod a hv hflat hguard before after hmodsEq hnd hoth hmg hparts hsys nm ts o os s k hk hi hb hkey hd hgs
+      hig hfm hhg hhm hfreshg hfreshm hfreshd,
+    by rw [skipMods_reads, typesetState3_reads, skipMods_reads]; rfl⟩
+
+def initCfg : Cfg :=
+  { mods := ["other", "mymod", "m3"], via := .d,
+    tree := [(["modules", "mymod", "types", "init_typeset.pp"], .typ .typeset ["Mymod"] ["Ta", "Tb"])] }
+
+/-- non-vacuity: three modules, the one in the middle has the `init_typeset`; hypotheses from the empty caches -/
+example :
+    MemHyp initCfg .g ["Mymod"]
+      (((skipMods ["mymod"] ["other"] (({} : St).put .g ["mymod"] none)).put (.m "mymod") ["mymod"] none).addRead
+        ["modules", "mymod", "types", "init_typeset.pp"]) ["Ta", "Tb"] ∧
+    MemHyp initCfg (.m "mymod") ["Mymod"]
+      (((skipMods ["mymod"] ["other"] (({} : St).put .g ["mymod"] none)).put (.m "mymod") ["mymod"] none).addRead
+        ["modules", "mymod", "types", "init_typeset.pp"]) ["Ta", "Tb"] ∧
+    partsOf ["MYMOD"] = some ["mymod"] ∧
+    (runLoads 40 initCfg {} [["MYMOD"], ["Mymod", "Tb"], ["Mymod"]]).1 =
+      [.found ⟨.typeset, ["Mymod"]⟩, .found ⟨.object, ["Mymod", "Tb"]⟩, .found ⟨.typeset, ["Mymod"]⟩] ∧
+    (runLoads 40 initCfg {} [["MYMOD"], ["Mymod", "Tb"], ["Mymod"]]).2.reads =
+      [["modules", "mymod", "types", "init_typeset.pp"]] := by
+  refine ⟨memHyp_of_check (by decide), memHyp_of_check (by decide), by decide, by decide, by decide⟩
 
 /-! ## negation witnesses for the known findings -/
 
